@@ -133,7 +133,8 @@ Print Assumptions getset_zero_complete.
            unreadable sample anywhere in the request; -o cannot be created; the temp file cannot be created
    listset, listctg: archive does not open; unknown sample; -o cannot be created
    create: --batch, --adaptive, --concatenated, --cpp-agc, non-UTF-8 output path, no inputs, a capacity string
-           that does not parse (or overflows under overflow checks), any Err / panic inside the pipeline *)
+           that does not parse (or overflows under overflow checks), any Err / panic inside the pipeline
+   info: always (not implemented; it used to exit 0) *)
 Theorem failures_nonzero : forall decode tmp st,
   (forall arc samples prefix output,
      open_archive decode (p_fs st) arc = None \/
@@ -158,7 +159,8 @@ Theorem failures_nonzero : forall decode tmp st,
      f_output_utf8 f = false \/ f_ninputs f = 0 \/
      (forall v, parse_capacity (f_checked f) (f_qcap f) <> Ok v) \/
      (exists l, pr = PipeFail l) ->
-     fst (run_main decode tmp (CmdCreate f output pr) st) = NonZero).
+     fst (run_main decode tmp (CmdCreate f output pr) st) = NonZero) /\
+  (forall arc, fst (run_main decode tmp (CmdInfo arc) st) = NonZero).
 Proof. exact Cli_proofs.failures_nonzero_proof. Qed.
 Print Assumptions failures_nonzero.
 
